@@ -1,6 +1,6 @@
 SPECIFICATION Spec
 CONSTANTS Table <- McTable
- Carriers <- McCarriers
+ Carriers <- McCarriersQ
  Heavy <- McHeavy
  Probe <- McProbe
  MaxIn <- McMaxIn3
